@@ -21,6 +21,7 @@ func init() {
 			{"C09.R4", "q", "block size agreement", c09r4},
 			{"C09.R5", "q", "resynchronisation through the checked reader", c09r5},
 			{"C09.R6", "q", "uniform resynchronisation", c09r6},
+			{"C09.R7", "q", "declared sizes are the actual sizes; size validity predicates", c09r7},
 			{"C04.L4", "q", "shared: a buffered record is handed out as a copy (the queued one is written later)", c04l4},
 		},
 	})
@@ -573,5 +574,82 @@ func c09r6(c *Ctx) {
 			return true
 		})
 		c.check(bad == "", R, f.Key+": resync starts at the failed record's offset", nv.Pos(), "stream.offset unchanged before nextValid", "stream.offset is advanced ("+bad+") using sizes from a header that failed validation before nextValid runs: the resynchronisation skips the span the damaged header claims")
+	}
+}
+
+func c09r7(c *Ctx) {
+	const R = "C09.R7"
+	if f := c.fn(R, "store.wrapRecord"); f != nil {
+		info := f.Info()
+		okK, okV, okR := false, false, false
+		ast.Inspect(f.Decl.Body, func(x ast.Node) bool {
+			switch s := x.(type) {
+			case *ast.KeyValueExpr:
+				id, _ := s.Key.(*ast.Ident)
+				if id == nil {
+					return true
+				}
+				call, _ := prog.StripConv(info, s.Value).(*ast.CallExpr)
+				if call != nil && prog.CalleeKey(info, call) == "builtin.len" {
+					if id.Name == "ksz" && prog.IsField(info, "store.Record.Key")(prog.Unparen(call.Args[0])) {
+						okK = true
+					}
+					if id.Name == "vsz" && prog.MentionsField(info, call.Args[0], "cmem.CArray.Body") {
+						okV = true
+					}
+				}
+			case *ast.AssignStmt:
+				for i, l := range s.Lhs {
+					if prog.IsField(info, "store.Meta.RecSize")(l) && len(s.Rhs) == 1 && i == 1 {
+						if call, ok := prog.Unparen(s.Rhs[0]).(*ast.CallExpr); ok && prog.CalleeKey(info, call) == "store.Record.Sizes" {
+							okR = true
+						}
+					}
+				}
+			}
+			return true
+		})
+		c.check(okK && okV, R, f.Key+": header sizes = len(key), len(value)", f.Pos(), "ksz = len(rec.Key), vsz = len(rec.Payload.Body)", "the sizes written into a record header are not the lengths of the key and value that follow it")
+		c.check(okR, R, f.Key+": RecSize = padded size", f.Pos(), "_, RecSize = rec.Sizes()", "the record size used for offsets is not the padded size from Record.Sizes")
+	}
+	if f := c.fn(R, "config.IsValidKeySize"); f != nil {
+		info := f.Info()
+		nz, le := false, false
+		ast.Inspect(f.Decl.Body, func(x ast.Node) bool {
+			if be, ok := x.(*ast.BinaryExpr); ok {
+				if be.Op == token.NEQ || be.Op == token.GTR {
+					if v, isC := prog.ConstInt(info, be.Y); isC && v == 0 {
+						nz = true
+					}
+				}
+				if be.Op == token.LEQ && prog.MentionsField(info, be.Y, "config.MCConfig.MaxKeyLen") {
+					le = true
+				}
+			}
+			return true
+		})
+		c.check(nz && le, R, f.Key+": 0 < ksz <= MaxKeyLen", f.Pos(), "both bounds", "the key-size validity predicate no longer rejects 0 and sizes above MaxKeyLen: a zeroed block parses as a record with an empty key, or a damaged size passes")
+	}
+	if f := c.fn(R, "config.IsValidValueSize"); f != nil {
+		info := f.Info()
+		le := false
+		ast.Inspect(f.Decl.Body, func(x ast.Node) bool {
+			if be, ok := x.(*ast.BinaryExpr); ok && be.Op == token.LEQ && prog.MentionsField(info, be.Y, "config.MCConfig.BodyMax") {
+				le = true
+			}
+			return true
+		})
+		c.check(le, R, f.Key+": vsz <= BodyMax", f.Pos(), "bounded", "the value-size validity predicate is no longer `vsz <= BodyMax`")
+	}
+	if f := c.fn(R, "store.dataStore.GetRecordByPos"); f != nil {
+		info := f.Info()
+		ok := false
+		for _, call := range f.CallsTo("store.dataChunk.GetRecordByOffset") {
+			ix := chunkIndexOf(f, call.Expr)
+			if ix != nil && prog.IsField(info, "store.Position.ChunkID")(prog.Unparen(ix)) && prog.IsField(info, "store.Position.Offset")(prog.Unparen(call.Expr.Args[0])) && prog.RootObj(info, ix) == f.Param(0) && prog.RootObj(info, call.Expr.Args[0]) == f.Param(0) {
+				ok = true
+			}
+		}
+		c.check(ok, R, f.Key+": chunks[pos.ChunkID].GetRecordByOffset(pos.Offset)", f.Pos(), "position used as is", "a position is not resolved as (chunk = pos.ChunkID, offset = pos.Offset)")
 	}
 }
